@@ -1,7 +1,8 @@
 #!/bin/sh
 # Confirms a seeded change independently: applies <dir>/patch.diff to a scratch export of /repo HEAD (outside /repo
 # and /verif), runs the repository's tests (must pass), then the demonstration with and without the change.
-# usage: tools/confirm_seed.sh <dir-with-patch.diff-and-demo_test.go>
+# usage: [CONFIRM_ENV='GOARCH=386'] tools/confirm_seed.sh <dir-with-patch.diff-and-demo_test.go>
+# (CONFIRM_ENV: extra environment for the two runs of the demonstration, for platform-dependent changes)
 export GOFLAGS=-mod=mod GOPROXY=off GOSUMDB=off GOTOOLCHAIN=local
 d=$(cd "$1" && pwd); id=$(basename "$d"); c=/tmp/confirm-$$-$id
 rm -rf "$c"; mkdir -p "$c"; (cd /repo && git archive HEAD | tar -x -C "$c")
@@ -14,8 +15,8 @@ esac
 (cd "$c" && patch -p1 -s -f < "$d/patch.diff") || { echo "$id: PATCH FAILED"; rm -rf "$c"; exit 1; }
 t1=$(cd "$c" && go test -vet=off -count=1 ./... >/dev/null 2>&1 && echo pass || echo FAIL)
 cp "$d/demo_test.go" "$c/$dest/zz_demo_test.go"
-t2=$(cd "$c" && timeout 900 go test -vet=off -count=1 ./$dest/ >/dev/null 2>&1 && echo pass || echo FAIL)
+t2=$(cd "$c" && timeout 900 env $CONFIRM_ENV go test -vet=off -count=1 ./$dest/ >/dev/null 2>&1 && echo pass || echo FAIL)
 (cd "$c" && patch -p1 -s -f -R < "$d/patch.diff")
-t3=$(cd "$c" && timeout 900 go test -vet=off -count=1 ./$dest/ >/dev/null 2>&1 && echo pass || echo FAIL)
+t3=$(cd "$c" && timeout 900 env $CONFIRM_ENV go test -vet=off -count=1 ./$dest/ >/dev/null 2>&1 && echo pass || echo FAIL)
 echo "$id: tests-with-change=$t1 demo-with-change=$t2 demo-without=$t3"
 rm -rf "$c"
